@@ -177,6 +177,15 @@ def run(ck):
                 corpus += [('@segment "%s"' % first, "Glob1"), ("@redefl .cc, .aa + 1", "Glob1"), ("@ds 1", "Glob1"), ("@undef .bb", "Glob1")]
             corpus += [('@segment "CODE"', "Glob1"), ("@dw .aa, .cc, @isdef .bb, @isdef .cc", "Glob1")]
             pairs.append((render(corpus, False), render(corpus, True), False, corpus, render(corpus, "mixed", rng)))
+    # a local name pasted together by @label inside an @each body / a macro argument that is replayed under the global label
+    # the body itself defines: `.tail` is shorthand for <that label>.tail wherever the tokens end up
+    for piece in ('@label { ".ta" "il" }', '@label { ".tail" }', ".tail"):
+        pp = "Outer: nop\n@each nmq, { First Second }\nnmq: nop\n%s: nop\n jp %s\n@endeach\n jp First.tail\n jp Second.tail\n" % (piece, piece)
+        qq = "Outer: nop\nFirst: nop\nFirst.tail: nop\n jp First.tail\nSecond: nop\nSecond.tail: nop\n jp Second.tail\n jp First.tail\n jp Second.tail\n"
+        pairs.append((pp, qq, True, [(pp, "First"), (pp, "Second")], pp))
+        pp = "@macro prq, 2, pnm, pbd\npnm: nop\npbd\n@endmacro\nOuter: nop\nprq First, { %s: nop }\n jp .tail\nprq Second, { %s: nop }\n jp First.tail\n" % (piece, piece)
+        qq = "Outer: nop\nFirst: nop\nFirst.tail: nop\n jp First.tail\nSecond: nop\nSecond.tail: nop\n jp First.tail\n"
+        pairs.append((pp, qq, True, [(pp, "First"), (pp, "Second")], pp))
     if os.environ.get("VERIF_SHOW_C09_CORPUS"):
         for p_, q_, _, _, _ in pairs[-23:]:
             print(repr(p_)); print(repr(q_))
